@@ -39,7 +39,7 @@ ASSUMPTIONS = [
 FLOORS = {
     "quick": {"crash_none": 300, "crash_caller": 1000, "crash_caller_baseexception": 300, "crash_badarg": 500, "crash_missing_aborted": 50,
               "crash_commit_write": 500, "abort_audits": 1500, "commit_audits": 300, "crash_reroot_old": 50,
-              "crash_reroot_missing": 100, "blocks_inside_except_handler": 500,
+              "crash_reroot_missing": 100, "blocks_inside_except_handler": 500, "crash_outer_write": 50,
               "post_ops_twin_compared": 2000, "open_batch_db_events": 5000},
     "thorough": {"crash_none": 3000, "crash_caller": 10000, "crash_caller_baseexception": 3000, "crash_badarg": 5000,
                  "crash_missing_aborted": 500, "crash_commit_write": 5000, "abort_audits": 15000,
@@ -136,7 +136,7 @@ def run_case(case, ctx):
     FOREIGN = RefTrie({b"not-in-this-database": b"v" * 40}).root_hash
     old_root, old_model = roots[crash.get("pick", 0) % len(roots)] if roots else (None, None)
 
-    sub = case["batch"]
+    sub = case["batch"] if not crash.get("idle") else []
     model0 = dict(model)
     pre_shape = RefTrie(model).shape()
 
@@ -144,7 +144,7 @@ def run_case(case, ctx):
     state = {"open": False, "events": 0}
 
     def no_mutation_while_open(dbobj, op, key, value):
-        if state["open"]:
+        if state["open"] and not state.get("outer_writing"):
             state["events"] += 1
             if op in ("set", "del", "pop", "clear"):
                 raise TraceViolation("batch-db-mutated-while-open",
@@ -173,6 +173,14 @@ def run_case(case, ctx):
             state["open"] = True
             try:
                 for i, o in enumerate(sub):
+                    if kind == "outer_write" and crash["at"] == i:
+                        # the caller writes to the OUTER trie while the block is open (its own
+                        # business; the batch does not see it and its final root still wins)
+                        state["outer_writing"] = True
+                        try:
+                            hh.apply_plain(t, dict(model), crash["op"])
+                        finally:
+                            state["outer_writing"] = False
                     if kind == "reroot_old" and crash["at"] == i:
                         b.root_hash = old_root
                         bmodel.clear()
@@ -208,6 +216,12 @@ def run_case(case, ctx):
                 if kind == "badarg" and crash["at"] >= len(sub):
                     b.set(None, b"v")
                     raise Violation("batch-badarg-accepted", "None key accepted inside the block")
+                if kind == "outer_write" and crash["at"] >= len(sub):
+                    state["outer_writing"] = True
+                    try:
+                        hh.apply_plain(t, dict(model), crash["op"])
+                    finally:
+                        state["outer_writing"] = False
                 if kind == "reroot_old" and crash["at"] >= len(sub):
                     b.root_hash = old_root
                     bmodel.clear()
@@ -337,10 +351,12 @@ def run_case(case, ctx):
         # (when the batch was pointed at another root by assignment, what it wrote before that
         # is unreachable by construction: "no intermediate node is added" is a statement about
         # batches that change their contents through set/delete only)
-        if kind != "reroot_old" and not added <= reach:
+        if kind not in ("reroot_old", "outer_write") and not added <= reach:
             raise Violation("batch-intermediate-leaked", "%d entr(ies) added by the commit are not part of the resulting trie" % len(added - reach))
         ctx.count("commit_audits")
-        ctx.count("crash_none" if kind == "none" else ("crash_reroot_old" if kind == "reroot_old" else "crash_%s_nofault" % kind))
+        ctx.count("crash_none" if kind == "none" else ("crash_%s" % kind if kind in ("reroot_old", "outer_write") else "crash_%s_nofault" % kind))
+        if kind == "outer_write":
+            twin_state["ok"] = False      # the twin has no batch to be overtaken by
         model = bmodel
         if twin_state["ok"]:
             for i, o in enumerate(sub):
@@ -441,6 +457,10 @@ def crash_points(base, rnd, commit_writes):
     if not base["prune"] and base["pre"]:
         yield {"kind": "reroot_old", "at": rnd.randint(0, n), "pick": rnd.randrange(1000)}
     yield {"kind": "reroot_missing"}
+    if not base["prune"] and base["post"]:
+        # an outer write while the block is open, with the batch as generated and with an idle batch
+        yield {"kind": "outer_write", "at": rnd.randint(0, n), "op": base["post"][0]}
+        yield {"kind": "outer_write", "at": 0, "op": base["post"][0], "idle": True}
     if base.get("big"):
         yield {"kind": "caller", "after": n}
         yield {"kind": "caller", "after": n // 2, "exc": 1}
